@@ -20,6 +20,9 @@ pub(crate) struct MapRefNode {
     // Can't make this one Miny because of some weird issues with lifetimes?
     pub(crate) mapper: Box<dyn FRef>,
     pub(crate) did_change: Cell<bool>,
+    /// The input changed while this node was not one of its parents (it was unnecessary), so
+    /// [did_change] does not cover those changes and our own parents were not told either.
+    pub(crate) missed_changes: Cell<bool>,
 }
 
 impl fmt::Debug for MapRefNode {
